@@ -13,17 +13,23 @@ import (
 	"go.etcd.io/bbolt/verifh/gen"
 )
 
-const c08Rule = "a generated workload (history with readers, rollbacks, reopenings; some under a small MaxSize) is executed once to count the I/O calls it issues (pwrite, fdatasync, ftruncate, grow-sync, mmap); then it is re-executed from scratch with the k-th call failing once, for a generated set of positions k (thorough: every k). Oracle at the failure: the call returns an error; for every position except the fdatasync that follows the meta write the in-process dump equals the pre-transaction model and the newest valid meta on disk is the old one; for that final sync the state is all-or-nothing and identical in memory, on disk and after reopen; page accounting by the independent decoder is exact and equals the in-memory free list; readers open across the failure keep their snapshot there and after every later commit; the following transactions (the rest of the workload) behave per model and the next writer does not block (watchdog). A failed mmap may leave the handle unusable (ErrInvalidMapping) but Close and reopen show the old state. Non-trivial = the failing call was inside a commit that both allocated and freed pages. Distinct = (workload hash, k)."
+const c08Rule = "a generated workload (history with readers, rollbacks, reopenings; some under a small MaxSize) is executed once to count the I/O calls it issues (pwrite, fdatasync, ftruncate, grow-sync, mmap); then it is re-executed from scratch with the k-th call failing once, for a generated set of positions k (thorough: every k). Oracle at the failure: the call returns an error; for every position except the fdatasync that follows the meta write the in-process dump equals the pre-transaction model and the newest valid meta on disk is the old one; for that final sync the state is all-or-nothing and identical in memory, on disk and after reopen; page accounting by the independent decoder is exact and equals the in-memory free list; readers open across the failure - and, at every third position, a reader begun from the I/O hook while the writer stands at the failing call - keep their snapshot there and after every later commit; the following transactions (the rest of the workload) behave per model and the next writer does not block (watchdog). A failed mmap may leave the handle unusable (ErrInvalidMapping) but Close and reopen show the old state. Non-trivial = the failing call was inside a commit that both allocated and freed pages. Distinct = (workload hash, k)."
 
 type c08Doc struct {
 	K int `json:"k"`
+	// ReaderAtFault: a read transaction is begun (from the I/O hook, same goroutine) while the writer stands at the
+	// failing call - before the meta write it must see the old version, at the final sync the new one - and lives on
+	ReaderAtFault bool `json:"reader_at_fault,omitempty"`
 }
 
 // c08Fault runs log with I/O event k failing once (k = 0: no fault) and applies the C08 oracle.
-func c08Fault(log []drv.Op, k int) (*drv.Env, *drv.Violation) {
+func c08Fault(log []drv.Op, k int, readerAtFault bool) (*drv.Env, *drv.Violation) {
 	e := drv.NewEnv("c08")
 	e.AllowCommitErr = true
 	e.FailAt = k
+	if readerAtFault {
+		e.MidAtFaultSlot = 9 // a slot the workload's own readers (1..3) never use
+	}
 	reopenNow := k%3 == 0
 	needReopen := false
 	var lastOpts drv.OpenOpts
@@ -248,12 +254,13 @@ func TestC08(t *testing.T) {
 			}
 		}
 		wh := hashOf(log)
-		for _, k := range ks {
-			e2, v := c08Fault(log, k)
+		for ki, k := range ks {
+			raf := ki%3 == 2 // every third position: a reader begins at the very call that fails
+			e2, v := c08Fault(log, k, raf)
 			labels := e2.Labels
 			e2.Cleanup()
 			if v != nil {
-				failCase(rt, replayDoc{Property: "C08", Kind: "fault", Ops: log, Extra: mustJSON(c08Doc{K: k})}, drv.Violf("with I/O call #%d of %d failing once: %s", k, K, v.Msg))
+				failCase(rt, replayDoc{Property: "C08", Kind: "fault", Ops: log, Extra: mustJSON(c08Doc{K: k, ReaderAtFault: raf})}, drv.Violf("with I/O call #%d of %d failing once (reader begun at the failing call: %v): %s", k, K, raf, v.Msg))
 			}
 			nt := false
 			for _, c := range commits {
@@ -286,7 +293,7 @@ func testingTier() string {
 func replayC08(t *testing.T, d replayDoc) *drv.Violation {
 	var doc c08Doc
 	_ = jsonUnmarshal(d.Extra, &doc)
-	e, v := c08Fault(d.Ops, doc.K)
+	e, v := c08Fault(d.Ops, doc.K, doc.ReaderAtFault)
 	e.Cleanup()
 	return v
 }
